@@ -50,9 +50,19 @@ class HarnessError(Exception):
 # draw back ends
 # --------------------------------------------------------------------------
 
+# Generation of the generators.  A committed replay file records choices, not
+# data: a generator decision added later (from the ``aux`` side streams) that
+# changes the *content* of a case would silently turn a regression replay into
+# another case.  Replay files carry the epoch they were written in; decisions
+# introduced with a later epoch are skipped when an older file is replayed.
+GENERATOR_EPOCH = 2
+
+
 class _DrawBase:
     """Interface shared by all back ends.  Every primitive records
     ``[kind, value, lo]`` in ``self.choices``."""
+
+    epoch = GENERATOR_EPOCH
 
     def __init__(self):
         self.choices = []
@@ -222,10 +232,12 @@ class ReplayDraw(_DrawBase):
     generator asks for (ranges may depend on earlier, shrunk choices); once the
     list is exhausted the minimum is returned."""
 
-    def __init__(self, recorded):
+    def __init__(self, recorded, epoch=None):
         super().__init__()
         self._rec = list(recorded)
         self._pos = 0
+        if epoch is not None:
+            self.epoch = int(epoch)
 
     def _next(self, kind):
         if self._pos < len(self._rec):
